@@ -187,6 +187,14 @@ def run_one(seed, preset=None, tier="quick", want_case=False):
     finally:
         for n in names:
             forget(n)
+    wide_info = None
+    wt = tape.sub("wide")
+    if wt.chance(4):
+        # a fan-out wider than any small bound an engine might put on its concurrency
+        from simv.wide import run_wide
+        wv, wide_info = run_wide(wt, "%s_%d_wide" % (ID, seed), [wt.rint(1030, 2300)], scheduler=wt.choose(["random", "lifo", "fifo"]),
+                                 lc=wt.choose([None, True]), pc=wt.choose([None, True, False]))
+        viol.extend(wv)
     r = base_result(tape, last_out, viol)
     r["digest"] = run_digest(digests)
     r["case_digest"] = case.digest()
@@ -195,7 +203,7 @@ def run_one(seed, preset=None, tier="quick", want_case=False):
     r["metrics"] = metrics
     r["sched_kinds"] = sched_kinds
     r["faults"] = dict(plan.faults_fired)
-    r["probes"] = {"with_faults": int(bool(faults)), "distinct_orders_ge_5": int(len(orders) >= 5)}
+    r["probes"] = {"with_faults": int(bool(faults)), "distinct_orders_ge_5": int(len(orders) >= 5), "fanout_over_1024_rows": int(wide_info is not None)}
     r["order"] = run_digest(sorted(orders))
     r["releases"], r["multi_choice"], r["vsec"] = tot["releases"], tot["multi"], tot["vsec"]
     r["metrics"]["distinct_release_orders_in_run"] = len(orders)
